@@ -1275,7 +1275,20 @@ pub fn write_report(
     log: &dyn Log,
     groups: &[FileGroup<FileInfo>],
 ) -> io::Result<()> {
-    let now = Local::now();
+    write_report_at(config, log, groups, Local::now())
+}
+
+/// Same as [`write_report`], but records the given time in the report header.
+///
+/// The recorded time tells the dedupe commands which files may have changed since they were
+/// scanned, so it should be taken *before* [`group_files`] was started. A file modified during
+/// the scan then has a later modification time than the one recorded in the report.
+pub fn write_report_at(
+    config: &GroupConfig,
+    log: &dyn Log,
+    groups: &[FileGroup<FileInfo>],
+    now: DateTime<Local>,
+) -> io::Result<()> {
 
     let total_count = file_count(groups.iter());
     let total_size = total_size(groups.iter());
